@@ -5,12 +5,14 @@ ID = "C03"
 TITLE = "forest table method = least fixed point, order independent, monotone"
 COQ_PROPS = "Props/C03.v"
 COQ_RUN = ("Forest.Run", "run_c03")
-GEN_TARGETS = []
+GEN_TARGETS = ["can_give_terms", "compute_shift", "preimage_gap"]
 N = {"quick": 12000, "thorough": 400000}
 RULE = (
     "histories of 1-40 forest keys over 1-12 labels (label sets with gaps), shifts in [-4,4], arity 0-4 "
     "with repeated children, shaped streams (cycles of positive / zero / negative net shift, late large "
     "shifts that change the gap size, chains), interleaved is_pumping queries on known and unknown labels; "
+    "4% of the cases instead evaluate the three definitions REGENERATED from forest.py (_can_give_terms, "
+    "_compute_shift, Function.preimage_gap) and the source functions on the same arguments (translator validation); "
     "after EVERY insertion TableMethod.function and pumping_subuniverse() are compared with the model, and "
     "with a naive Kleene iteration (oracle); each multiset is also replayed in a second random order "
     "(order independence) and every prefix is checked for monotonicity. "
@@ -31,8 +33,25 @@ def _key(parent, kids):
     return [0, parent, [[c, s] for c, s in kids]]
 
 
+def _gen_translated(rng):
+    """arguments for the three definitions regenerated from forest.py (translator validation)"""
+    which = rng.randrange(3)
+    optz = lambda lo, hi: None if rng.random() < 0.25 else rng.randint(lo, hi)
+    if which == 0:
+        return {"gen": [0, [optz(-3, 4) for _ in range(rng.randint(0, 5))]]}
+    if which == 1:
+        k = rng.randint(0, 5)
+        return {"gen": [1, optz(0, 9), [optz(0, 9) for _ in range(k)], [rng.randint(-4, 4) for _ in range(k)]]}
+    n = rng.randint(0, 12)
+    cnt = [rng.choice([0, 0, 1, 2, 5]) for _ in range(n)] + [0] * rng.choice([0, 0, 1, 3])
+    return {"gen": [2, cnt, rng.randint(1, 5)]}
+
+
 def gen(rng, tier):
     while True:
+        if rng.random() < 0.04:
+            yield _gen_translated(rng)
+            continue
         style = rng.choice(["random", "random", "cycle", "chain", "lateshift", "dense", "tiny"])
         nlab = rng.randint(1, 12)
         labels = rng.sample(range(0, 16), nlab) if rng.random() < 0.4 else list(range(nlab))
@@ -82,8 +101,36 @@ def gen(rng, tier):
         yield {"ops": out, "perm_seed": rng.randrange(1 << 30)}
 
 
+def _sxopt(v):
+    return [] if v is None else v
+
+
 def encode(case):
+    if "gen" in case:
+        g = case["gen"]
+        if g[0] == 0:
+            return [-7, 0, [_sxopt(v) for v in g[1]]]
+        if g[0] == 1:
+            return [-7, 1, _sxopt(g[1]), [_sxopt(v) for v in g[2]], g[3]]
+        return [-7, 2, g[1], g[2]]
     return case["ops"]
+
+
+def _impl_translated(g):
+    """the three source functions themselves, on the same arguments"""
+    from comb_spec_searcher.rule_db.forest import Function, TableMethod
+
+    if g[0] == 0:
+        return int(TableMethod._can_give_terms(list(g[1])))
+    if g[0] == 1:
+        tm = TableMethod()
+        k = len(g[2])
+        tm._function._value = [g[1]] + list(g[2])     # label 0 = parent, 1..k = children
+        got = tm._compute_shift((0, tuple(range(1, k + 1))), tuple(g[3]))
+        return [_sxopt(v) for v in got]
+    f = Function()
+    f._preimage_count._list = list(g[1])
+    return f.preimage_gap(g[2])
 
 
 def _run_tm(ops):
@@ -116,6 +163,8 @@ def _run_tm(ops):
 
 
 def impl(case):
+    if "gen" in case:
+        return {"out": _impl_translated(case["gen"]), "snaps": [], "final_perm": {}}
     out, snaps = _run_tm(case["ops"])
     # the same multiset in another order
     import random
@@ -157,6 +206,8 @@ def naive_lfp(keys):
 def oracle(case, res):
     if "exception" in res:
         return "implementation raised " + res["exception"]
+    if "gen" in case:
+        return None
     keys = []
     prev = {}
     i = 0
@@ -188,10 +239,12 @@ def nontrivial(case, res):
 
 
 def key(case):
-    return str(case["ops"])
+    return str(case.get("gen", case.get("ops")))
 
 
 def classify(case, res):
+    if "gen" in case:
+        return ["translated:" + ["can_give_terms", "compute_shift", "preimage_gap"][case["gen"][0]]]
     tags = []
     ks = [o for o in case["ops"] if o[0] == 0]
     tags.append("keys<=10" if len(ks) <= 10 else "keys>10")
@@ -209,6 +262,8 @@ def classify(case, res):
 
 
 def shrink(case):
+    if "gen" in case:
+        return
     ops = case["ops"]
     for i in range(len(ops)):
         yield {"ops": ops[:i] + ops[i + 1:], "perm_seed": case["perm_seed"]}
@@ -233,6 +288,9 @@ LEVEL_TEXT = (
 )
 LEVEL_NOTE = (
     "Partial correctness: termination of _process_queue is not proved (fuel; OutOfFuel excluded by hypothesis). "
+    "The firing test and the gap search of the model are proved equal to TableMethod._can_give_terms o _compute_shift "
+    "and Function.preimage_gap as RE-TRANSLATED from forest.py on every run (C03_firing_test_is_source, "
+    "C03_gap_search_is_source). "
     "The model is layer A of DESIGN.md (firing decided from the value table, re-queue = all fireable rules "
     "mentioning the class); the incrementally maintained _shifts/_rules_using_class bookkeeping of the code is "
     "covered by the correspondence only. Trusted: Coq kernel, extraction, OCaml driver, harness."
